@@ -425,11 +425,14 @@ def bpe_train(char_list, vocab_size=10000, min_count=1, max_char_code=0):
     code_list = [pair_to_replace]
     code_lengths[new_code] = pair_length(pair_to_replace, code_lengths, max_char_code)
 
+    # True while the most recently learned token has not been applied to the training encodings
+    pending_contraction = True
     while len(tokens) < vocab_size:
         for i, char_array in enumerate(compressed_chars):
             compressed_chars[i], pair_counts = contract_and_count_pairs(
                 char_array, pair_to_replace, pair_counts, new_code
             )
+        pending_contraction = False
 
         pair_counts.pop(pair_to_replace)
         new_code += 1
@@ -449,8 +452,17 @@ def bpe_train(char_list, vocab_size=10000, min_count=1, max_char_code=0):
             tokens.append(pair_to_string(pair_to_replace, tokens, max_char_code))
             code_list.append(pair_to_replace)
             code_lengths[new_code] = pair_length(pair_to_replace, code_lengths, max_char_code)
+            pending_contraction = True
         else:
             break
+
+    if pending_contraction:
+        # the vocabulary budget was reached right after learning this token: apply it as well,
+        # so that the training encodings use every code in code_list
+        for i, char_array in enumerate(compressed_chars):
+            compressed_chars[i], pair_counts = contract_and_count_pairs(
+                char_array, pair_to_replace, pair_counts, new_code
+            )
 
     return tokens, code_list, compressed_chars, max_char_code
 
